@@ -1,10 +1,11 @@
 """Core expressions of coq/Sem.v as JavaScript: string literals, identifiers, +, unary calls,
-parentheses.  One expression per program, as the argument of the last return statement."""
+parentheses, compound assignments, method calls, template literals.  One expression per program, as the argument of the last return statement."""
 import random
 
 VARS = ["a", "b", "c", "d"]
 LITS = ["'s1'", "'s2'", "'lit'", '"q"']
 CALLEES = ["g", "h"]
+PIECES = ["", "", "x", " - ", "a b", "1"]
 METHODS = ["trim", "concat", "substring", "replace", "toUpperCase", "slice", "foo", "push", "at"]
 
 
@@ -29,6 +30,13 @@ def expr(rng, depth):
         if rng.random() < 0.4:
             return "%s.%s()" % (recv, rng.choice(METHODS))
         return "%s.%s(%s)" % (recv, rng.choice(METHODS), expr(rng, depth - 1))
+    if r < 0.93:
+        # a template literal with one or two substitutions (a literal substitution leaves the whole template alone)
+        subs = [expr(rng, depth - 1) for _ in range(rng.choice([1, 1, 2, 2, 2]))]
+        out = rng.choice(PIECES)
+        for sub in subs:
+            out += "${%s}%s" % (sub, rng.choice(PIECES))
+        return "`%s`" % out
     callee = rng.choice(CALLEES) if rng.random() < 0.75 else "%s(%s)" % (rng.choice(CALLEES), expr(rng, depth - 2))
     return "%s(%s)" % (callee, expr(rng, depth - 1))
 
